@@ -16,6 +16,8 @@ pub mod c03;
 pub mod c09;
 pub mod c11;
 pub mod c18;
+pub mod c16;
+pub mod c19;
 pub mod c20;
 
 pub fn run(prop: &str, ctx: &mut Ctx) -> Option<Report> {
@@ -35,6 +37,8 @@ pub fn run(prop: &str, ctx: &mut Ctx) -> Option<Report> {
         "C09" => Some(c09::run(ctx)),
         "C11" => Some(c11::run(ctx)),
         "C18" => Some(c18::run(ctx)),
+        "C16" => Some(c16::run(ctx)),
+        "C19" => Some(c19::run(ctx)),
         "C20" => Some(c20::run(ctx)),
         _ => None,
     }
